@@ -82,3 +82,61 @@ THEORY = {
 }
 
 TRUSTED_THEORY_NOTE = [f"theory axiom {name}" for name in THEORY]
+
+
+def _ext_axiom(sort, diff, size):
+    so = sort.sexpr()
+    d, f = diff.name(), size.name()
+    txt = (f"(assert (forall ((s {so}) (t {so})) (! (or (= s t) (not (= (select s ({d} s t)) (select t ({d} s t))))) "
+           f":pattern (({f} s) ({f} t)))))")
+    from . import ty as T
+    sorts = {x.name(): x for x in (T.TupS, T.MetaS, T.LayerS, T.StrS, T.FieldS, T.ValS)}
+    sorts.update({x.name(): x for x in T._pairs.values()})
+    return z3.parse_smt2_string(txt, sorts=sorts, decls={d: diff, f: size})[0]
+
+
+_coll_cache = {}
+
+
+def collection_axioms(e):
+    if e.name not in _coll_cache:
+        _coll_cache[e.name] = _collection_axioms(e)
+    return _coll_cache[e.name]
+
+
+def _collection_axioms(e):
+    """Axioms about len() of bags and sets over element type e (finite collections)."""
+    from . import ty as T
+    bt, st = T.Bag(e), T.Set(e)
+    blen, card = bt.blen(), st.card()
+    n = T._sname(e)
+    supp = z3.Function(f"supp_{n}", bt.sort(), st.sort())          # set(list)
+    w01 = z3.Function(f"w01_{n}", bt.sort(), e.sort())             # Skolem: an element with multiplicity > 1 if any
+    sd = z3.Function(f"sdiff_{n}", st.sort(), st.sort(), e.sort()) # Skolem: an element on which two sets differ
+    bd = z3.Function(f"bdiff_{n}", bt.sort(), bt.sort(), e.sort())
+    b, b2 = z3.Const("_b", bt.sort()), z3.Const("_b2", bt.sort())
+    s, s2 = z3.Const("_s", st.sort()), z3.Const("_s2", st.sort())
+    x = z3.Const("_e", e.sort())
+    return {
+        f"supp_def[{n}]": FA([b, x], supp(b)[x] == (b[x] >= 1), supp(b)[x]),
+        # a duplicate-free list is as long as its set of elements
+        f"bag01_len[{n}]": FA([b], z3.Implies(z3.And(0 <= b[w01(b)], b[w01(b)] <= 1), blen(b) == card(supp(b))), blen(b)),
+        # extensionality, tried for every pair of collections whose length is mentioned (multi-pattern; built from
+        # SMT-LIB text because z3's Python MultiPattern is unreliable on array-sorted arguments)
+        f"card_ext[{n}]": _ext_axiom(st.sort(), sd, card),
+        f"blen_ext[{n}]": _ext_axiom(bt.sort(), bd, blen),
+        f"card_nonneg[{n}]": FA([s], card(s) >= 0, card(s)),
+        f"blen_nonneg[{n}]": FA([b], blen(b) >= 0, blen(b)),
+        f"card_empty[{n}]": card(z3.K(e.sort(), z3.BoolVal(False))) == 0,
+        f"blen_empty[{n}]": blen(z3.K(e.sort(), z3.IntVal(0))) == 0,
+        f"card_add[{n}]": FA([s, x], card(z3.Store(s, x, True)) == card(s) + z3.If(s[x], 0, 1), card(z3.Store(s, x, True))),
+        f"card_del[{n}]": FA([s, x], card(z3.Store(s, x, False)) == card(s) - z3.If(s[x], 1, 0), card(z3.Store(s, x, False))),
+    }
+
+
+def all_axioms():
+    from . import ty as T
+    out = dict(THEORY)
+    for e in list(T.ELEM_TYPES.values()):
+        out.update(collection_axioms(e))
+    return out
